@@ -373,14 +373,14 @@ func fnSort(ctx *cmdContext, args map[string]any) (output respValue, err error) 
 }
 
 func fnFlushAll(ctx *cmdContext, args map[string]any) (output respValue, err error) {
-	ctx.cs.dss.flushAll()
+	ctx.cs.dss.flushAll(ctx.dsc)
 	ctx.cs.selectDb(ctx.cs.selectedDb, true)
 	output.data = rstrOK
 	return
 }
 
 func fnFlushDb(ctx *cmdContext, args map[string]any) (output respValue, err error) {
-	ctx.cs.dss.flushDb(ctx.cs.selectedDb)
+	ctx.cs.dss.flushDb(ctx.dsc, ctx.cs.selectedDb)
 	ctx.cs.selectDb(ctx.cs.selectedDb, true)
 	output.data = rstrOK
 	return
